@@ -34,7 +34,7 @@ Hypotheses (explicit; all hold of IEEE f32/f64 as stated):
                     the MEAN is not NaN (`averageNoNaN_of_mean`) — the clamp never creates a NaN.
                     It is a hypothesis, not proved for floats.
 
-NOT proved: anything new for weighted / Ward on floats (their `ChainReducible` is still false under
+NOT proved: anything new for Ward on floats (weighted is handled in `Props/C01Weighted.lean`; Ward's `ChainReducible` is still false under
 rounding; the crate does not route around that) — for those the claim keeps resting on the
 correspondence run and the structural validator.  Not proved: `AverageNoNaN` for `Float`/`Float32`.
 
